@@ -235,9 +235,11 @@ const _: () = {
     feature = "unwrap",
 ))]
 pub(crate) fn behind_reference(ty: &impl ToTokens) -> TokenStream {
+    /// (A macro in type position may stand for one.)
     fn names_trait_object(tokens: TokenStream) -> bool {
         tokens.into_iter().any(|tt| match tt {
             proc_macro2::TokenTree::Ident(i) => i == "dyn",
+            proc_macro2::TokenTree::Punct(p) => p.as_char() == '!',
             proc_macro2::TokenTree::Group(g) => names_trait_object(g.stream()),
             _ => false,
         })
